@@ -2528,6 +2528,31 @@ def special_c16(tier, seed):
             for rep in other[:2]:
                 fails.append((f"ThreadSanitizer: {rep.splitlines()[0].strip()} with {threads} threads using the three-argument Solve",
                               {"cmd": f"{exe} {sd} {threads} {rounds} 3arg", "report": rep[:2500]}, True))
+    # static effect extraction (tools/effects.py, clang AST): stores into shared storage from the named entry points.
+    # A store found here without a ThreadSanitizer report above is still a violation (the premise of the theorem is
+    # gone: Gen/Effects.lean changed and C16_entry_points_write_nothing_shared no longer checks) -- reported with the
+    # store site as the replay, marked no-failing-input-found.  The three-argument overload's stores are KF-C16-1.
+    try:
+        import effects
+        eres, est = effects.extract()
+        dist["effects: functions with bodies"] = est["functions_with_bodies"]
+        dist["effects: analysed contexts"] = est["analysed_contexts"]
+        dist["effects: configurations"] = len(est["configurations"])
+        sites = {}
+        for key, ws in eres.items():
+            cfg, ep = key.split(" ")
+            for w in ws:
+                sites.setdefault((ep == "Solve3", w["member"], w["where"]), []).append((cfg, ep, w["via"]))
+        for (is3, member, where), users in sorted(sites.items()):
+            if is3 and "solver_parameters" in where.replace("rosenbrock_solver_parameters", "solver_parameters").replace("backward_euler_solver_parameters", "solver_parameters"):
+                continue        # the stored parameter struct: KF-C16-1, reported through the ThreadSanitizer run above
+            cfgs = sorted({u[0] for u in users}); eps = sorted({u[1] for u in users})
+            fails.append((f"{'/'.join(eps)} stores into storage shared by all threads using the solver: {member} at {where} "
+                          f"(configurations {', '.join(cfgs)}; call chain {' > '.join(x.split('::')[-1] for x in users[0][2][-4:])})",
+                          {"store": member, "where": where, "entry_points": eps, "configurations": cfgs, "call_chain": users[0][2],
+                           "theorem": "Micm.C16_entry_points_write_nothing_shared"}, False))
+    except Exception as e:
+        fails.append((f"static effect extraction failed: {type(e).__name__}: {str(e)[:300]}", {}, False))
     # source scan: shared mutable state reachable from the CPU solver headers
     allow = {"profiler/instrumentation.hpp"}
     pat = re.compile(r"\bmutable\b|const_cast|\bthread_local\b|^\s*static\s+(?!constexpr|const\b|inline\s+const|_assert)[A-Za-z_:<>,\s\*&]+\s+[A-Za-z_]\w*\s*(=|;|\{)")
@@ -2793,10 +2818,12 @@ PROPS = {
              Ls={"quick": [0], "thorough": [0]}, san=1, assumptions=["at most one non-gas phase per generated system (the iteration order of the unordered phase map is then irrelevant)"]),
  "C15": dict(level="proof", gen=g_c15, rule="random mixes of the 7 rate-constant types, T 150-350 K, P 1-1.1e5 Pa, custom parameters set by label; transcendental formulas compared within 16 ulp",
              Ls={"quick": [0, 3], "thorough": [0, 1, 2, 3, 4]}, missing="the formulas are transcribed and compared numerically, not proved", assumptions=[ASSUME_FP]),
- "C16": dict(level="other", gen=None, special=special_c16, rule="2..16 threads sharing one solver (Rosenbrock/backward Euler, standard/vector/in-place), each with its own States, under ThreadSanitizer; per-thread results compared bitwise with serial runs; source scan for shared mutable state",
+ "C16": dict(level="proof", gen=None, special=special_c16, rule="(i) static: for 7 instantiated solver configurations (Rosenbrock/backward Euler x standard/vector x separate/in-place/Mozart LU) and the 4 entry points, every store rooted in the shared solver object or in static/global storage, extracted from the typed clang AST along the whole call graph (virtual dispatch to every override, const parameters included); (ii) dynamic: 2..16 threads sharing one solver, each with its own States (fresh, copy-constructed and copy-assigned from a template State), under ThreadSanitizer; per-thread results compared bitwise with serial runs; the three-argument Solve separately; (iii) source scan for mutable/static/const_cast",
              Ls={"quick": [0], "thorough": [0]},
-             explanation="Model theorem (Lean): for every interleaving each thread obtains exactly its serial result, given that steps read the shared solver and write only the stepping thread's State. That premise about the C++ is validated, not proved: ThreadSanitizer over 2..16-thread runs, bitwise serial/parallel comparison, and a source scan for mutable/static/const_cast. The C++ memory model and the scheduler are outside the model.",
-             missing="data-race freedom of the C++ is validated by execution (TSan), not proved", assumptions=["the three-argument Solve overload (which writes solver_parameters_) is excluded, as in the property"]),
+             trusted_extra=["tools/effects.py: abstract interpretation of the clang-14 JSON AST (ownership roots this/param/local/global; classification of calls without a body in the dump by name; aliasing through pointers stored inside the caller's State is NOT tracked)",
+                            "clang 14 front end (template instantiation as in the probe translation unit)", "the C++ memory model: absence of conflicting accesses implies serial equivalence"],
+             explanation="Theorems: (C16) in the interleaving model every thread obtains, under every schedule, the results of its own calls executed serially, provided a step reads the shared solver value and writes only the stepping thread's State; (C16b) a step that writes the shared value is schedule dependent, read-only steps embed; (C16c) the premise for the source as it is now: the generated table Gen/Effects.lean -- every store into shared storage reachable from GetState, CalculateRateConstants and Solve(time_step, state), per configuration -- is empty (decide), 7 configurations x 3 entry points. The table is regenerated from the clang AST of /repo's headers on every run; a mutable cache, a static scratch buffer or a member used to restore a rejected step makes it non-empty, the theorem stops checking, and the ThreadSanitizer runs supply the failing schedule.",
+             missing="soundness of the effect extraction is trusted, not proved (its limits: stores through pointers held inside a State -- shared_ptr members shared between State copies -- are outside it and are covered by ThreadSanitizer runs on copied States only); TSan sees only the schedules that occur", assumptions=["the three-argument Solve overload writes solver_parameters_ (its row in the table is not empty): known finding KF-C16-1"]),
  "C17": dict(level="proof", gen=g_c17, rule="random histories of copy/move construct/assign, set, solve over up to 8 State objects under ASan+UBSan; final: solve on a copy == solve on its source",
              Ls={"quick": [0, 3], "thorough": [0, 1, 2, 3, 4]}, assumptions=["moved-from States are not used again (C++ contract)"]),
  "C18": dict(level="proof", gen=None, special=special_c18, rule="seeded random mechanisms x L=1..4 x five parameter sets: (i) the textual IR of every function the LLVM backend generates (forcing, Jacobian on the declared and on the fill-closed pattern, Doolittle decomposition, linear solve, diagonal shift) read back into a lane-loop program and compared, loop for loop, with the program the model generates from the same tables/pattern; (ii) JIT-built solver and JIT functions vs CPU vector solver/kernels on identical data, bitwise; objects under test reached by construction and by move-assignment; cell count L+1 rejected at build time, block counts L-1, L+1, 2L, 3L rejected at run time",
